@@ -373,7 +373,13 @@ func (e *Env) judgeAuditFile(path string, ops []*ConcOp) {
 		}
 		want[fmt.Sprintf("%s|%s|%s|%d|%v", co.Caller.Node, mop.Kind.Action(), mop.Name, v, auth)]++
 	}
-	for k, c := range want {
+	wk := make([]string, 0, len(want))
+	for k := range want {
+		wk = append(wk, k)
+	}
+	sort.Strings(wk)
+	for _, k := range wk {
+		c := want[k]
 		if got[k] < c {
 			e.fail("audit-file", "audit file holds %d record(s) %s, expected at least %d (a record was lost)", got[k], k, c)
 			return
